@@ -219,6 +219,11 @@ func registerCoop(e *Engine) {
 		ex.blocked(what)
 		return nil, nil
 	})
+	// BlockedReason(): inside an OnBlocked callback, what the execution is blocked on.
+	e.reg(rtPkg+".BlockedReason", func(ex *Exec, fn *ssa.Function, args []Value) (Value, *PanicV) {
+		r, _ := ex.st["blocked_reason"].(string)
+		return ex.mkString(r), nil
+	})
 	// Yield(what): a pre-emption point.
 	e.reg(rtPkg+".Yield", func(ex *Exec, fn *ssa.Function, args []Value) (Value, *PanicV) {
 		s, _ := ex.st["co"].(*coSched)
